@@ -11,6 +11,7 @@ THEOREMS = [P + t for t in [
     "abandoned_threaded_await_resumes_when_unchecked",
     "callback_tables_closed", "mark_visit_resumes_nobody", "deinit_resumes_nobody", "listener_callback_wakes_only_its_fiber",
     "every_wake_site_classified", "every_site_class_covered",
+    "boot_forms_are_the_mirrored_ones", "gather_cancels_only_its_fibers", "gather_cancel_abandons_sibling_waits", "with_deadline_guards_its_task_only",
     "select_give_on_stale_readers_registers_when_unchecked", "stale_writer_resumed_when_unchecked", "stale_reader_resumed_by_close_when_unchecked",
 ]]
 HAVE_DRIVER = True
